@@ -1,4 +1,5 @@
 import LinfaSpec.Proofs.Predict
+import LinfaSpec.Proofs.PredictOrder
 import LinfaSpec.Proofs.PredictPlatt
 import Mathlib.Order.Defs.LinearOrder
 
@@ -139,6 +140,17 @@ theorem multiClass_argmax {L P : Type} [LinearOrder P] (best : L × P) (ds : Lis
 
 example : argmaxPairGo (7, 1) [(9, 3), (4, 3), (5, 2)] = (9, 3) := by decide
 
+/-- what the statement asks of the wrapper, without the tie-break: the pair returned is one of the
+members' (label, probability) pairs for that row and no member has a higher probability -/
+theorem multiClass_label_has_max_probability {L P : Type} [LinearOrder P] (best : L × P)
+    (ds : List (L × P)) :
+    argmaxPairGo best ds ∈ best :: ds ∧ ∀ d ∈ best :: ds, d.2 ≤ (argmaxPairGo best ds).2 := by
+  obtain ⟨pre, post, e, _, hall⟩ := multiClass_argmax best ds
+  exact ⟨by rw [e]; simp, hall⟩
+
+example : (argmaxPairGo (7, 1) [(9, 3), (4, 3), (5, 2)]) ∈ [(7, 1), (9, 3), (4, 3), (5, 2)] :=
+  (multiClass_label_has_max_probability (7, 1) [(9, 3), (4, 3), (5, 2)]).1
+
 
 /-! ## The structural families: `batch = map row`
 
@@ -199,6 +211,27 @@ example : kmeansBatch ([[0], [10]] : List (List Int)) [[1], [9], [5]] = some [0,
 example : tableBatch ([fun (x : Int) => x, fun x => 3 - x].map fun s => fun rs => rs.map s) [0, 1, 2, 3]
     = some [1, 1, 0, 0] := by decide
 example : threshBatch (fun rs => rs.map fun (x : Int) => 2 * x) 3 [1, 2] = [false, true] := by decide
+
+/-- k-means (oracle clause `nearest_centroid`): whatever `closest_centroid` returns is an index into
+the centroid table, the distance of that very centroid, and no centroid is nearer — for every
+table and every observation (first minimum; centroid 0 visited twice changes nothing) -/
+theorem kmeans_nearest_centroid {α : Type} [LinearOrder α] [Add α] [Sub α] [Mul α] [OfNat α 0]
+    (cents : List (List α)) (obs : List α) (i : Nat) (d : α)
+    (h : closestCentroid cents obs = some (i, d)) :
+    ∃ hi : i < cents.length, d = sqDist cents[i] obs ∧ ∀ c ∈ cents, d ≤ sqDist c obs :=
+  closestCentroid_nearest cents obs i d h
+
+example : closestCentroid ([[0], [10], [4]] : List (List Int)) [5] = some (2, 1) := by decide
+
+/-- score tables (naive Bayes, GMM, multinomial logistic): the class returned for a row is in range,
+its score is maximal among the row's scores and every earlier class scores strictly less -/
+theorem table_row_first_max {R α : Type} [LinearOrder α] (ss : List (R → α)) (r : R) (hne : ss ≠ []) :
+    ∃ v, (ss.map fun s => s r)[tableRow ss r]? = some v ∧ (∀ s ∈ ss, s r ≤ v) ∧
+      ∀ j y, j < tableRow ss r → (ss.map fun s => s r)[j]? = some y → y < v := by
+  obtain ⟨v, h1, h2, h3⟩ := argmaxIdx_first_max (ss.map fun s => s r) (by simpa using hne)
+  exact ⟨v, h1, fun s hs => h2 (s r) (List.mem_map_of_mem hs), h3⟩
+
+example : tableRow [fun (x : Int) => x, fun x => 3 - x, fun x => 3 - x] 1 = 1 := by decide
 
 /-- tree descent never fails when every split feature exists in the row -/
 def treeFeaturesBelow {α L : Type} : Tree α L → Nat → Prop
@@ -395,6 +428,29 @@ theorem multiClass_inplace_no_member {R L P : Type} [LT P] [DecidableLT P]
     multiClassInplace (P := P) ([] : List (L × (List R → List P))) rows y = some y := by
   simp [multiClassInplace, hy, writeZip]
 
+/-- isotonic regression over a linear order (no NaN), non-empty model with as many responses as
+knots: **every** cell is written — `position` always finds a knot between `x_min` and `x_max` — so
+the in-place form returns `vs.map g` whatever the buffer held (over IEEE floats a NaN query leaves
+its cell untouched: `isoCell … = some none`, see the notes) -/
+theorem iso_inplace_overwrites {α : Type} [LinearOrder α] [Add α] [Sub α] [Mul α] [Div α]
+    (reg resp : List α) (hne : reg ≠ []) (hlen : resp.length = reg.length) :
+    ∃ g : α → α, (∀ v, isoCell reg resp v = some (some (g v))) ∧
+      ∀ (vs y : List α), y.length = vs.length →
+        isoInplace reg resp (vs.map fun v => [v]) y = some (vs.map g) :=
+  iso_inplace_overwrites' reg resp hne hlen
+
+/-- … hence the `Predict` forms of isotonic regression are `batch = map row`, one output per row -/
+theorem iso_batch_eq_map {α : Type} [LinearOrder α] [Add α] [Sub α] [Mul α] [Div α] [OfNat α 0]
+    (reg resp : List α) (hne : reg ≠ []) (hlen : resp.length = reg.length) :
+    ∃ g : α → α, ∀ vs : List α, isoBatch reg resp (vs.map fun v => [v]) = some (vs.map g) := by
+  obtain ⟨g, _, h⟩ := iso_inplace_overwrites reg resp hne hlen
+  refine ⟨g, fun vs => ?_⟩
+  unfold isoBatch
+  exact h vs _ (by simp)
+
+example : isoInplace ([0, 2, 4] : List Int) [0, 2, 10] [[2], [3], [9], [-1]] [77, 77, 77, 77] =
+    some [2, 2, 10, 0] := by decide
+
 example : multiClassInplace ([(7, fun (x : Nat) => x % 3), (9, fun x => x % 2)].map
     fun m => (m.1, fun rs => rs.map m.2)) [0, 1, 2, 3] [55, 55, 55, 55] = some [7, 7, 7, 9] := by decide
 example : affineInplace ([[1, 2], [3, 4]] : List (List Int)) [10, 1] 5 [99, -99] = some [17, 39] := by decide
@@ -468,6 +524,17 @@ theorem platt_batch_eq_map {R : Type} (d : R → ℝ) (a b : ℝ) (rows : List R
   intro r _
   rw [Function.comp_apply]
   exact platt_value (d r) a b
+
+/-- the Platt wrapper into a supplied probability buffer: every cell is overwritten -/
+theorem platt_inplace_overwrites {R : Type} (d : R → ℝ) (a b : ℝ) (rows : List R) (y : List ℝ)
+    (hy : y.length = rows.length) :
+    plattInplace (fun (v : ℝ) => v) (fun rs => rs.map d) a b rows y =
+      some (rows.map fun r => 1 / (1 + Real.exp (a * d r + b))) := by
+  unfold plattInplace
+  simp only [hy, ne_eq, not_true_eq_false, if_false]
+  rw [zipWrite_eq_map _ (fun x => 1 / (1 + Real.exp (a * x + b))) (rows.map d) y
+    (fun x _ => platt_value x a b) (by simp [hy])]
+  simp [List.map_map, Function.comp_def]
 
 example : ∃ p, plattPredict (fun (v : ℝ) => v) 2 (-1) 0.5 = some p ∧ 0 ≤ p ∧ p ≤ 1 := platt_range _ _ _
 example : plattRaw ((-1 : ℝ) * 1 + 0) < plattRaw ((-1 : ℝ) * 2 + 0) := platt_strict (-1) 0 1 2 (by norm_num) (by norm_num)
